@@ -17,6 +17,9 @@ CLAIMED = {
  "C12": ("writer/reader table extraction and agreement over the AST (extension strings vs parse loops, 4 PMCE modules), guard facts at every stored wire value, role-mapping table check of (de)compressor set-up and factory methods, raise-site fact matching for offer/accept compatibility, constant agreement of the sync-flush tail, guard-dominance of RSV1/doNotCompress gating",
          "Decides the negotiation and gating clauses on all paths: parameter names agree between writers and readers; every parse loop rejects repeated, unknown, non-integer and out-of-range parameters (9..15 for deflate); each direction is set up from the parameter family of the sending role and negated for raw deflate; factory methods bind offer/response/accept fields to the matching family; incompatible accepts raise; the sender strips exactly the 4-octet tail the receiver re-appends; RSV1 and the compressor are used only when an extension is active and doNotCompress is off, and decompression follows the RSV1 of the first frame. Does not decide losslessness of the compression libraries or context takeover across messages (run-time library state).",
          "3 C12"),
+ "C15": ("key-index analysis: residue-domain evaluation of the Python maskers' index expressions; symbolic affine execution (path-forking, loop summarisation, arithmetic modulo 4 / 16) of the pycparser AST of nvx/_xormasker.c in both preprocessor worlds; guard extraction for the mask policy",
+         "For all payload lengths, entry pointers and buffer alignments (symbolically, not sampled): in every implementation - Python simple and table-shifted, C scalar and SSE2 (head / aligned 16-byte body / tail on each of its 8 paths) - the regions written tile [0, len) exactly once, the key index of the byte at offset k is (ptr + k) mod 4, aligned SIMD loads are 16-byte aligned and the pointer advances by len; the dispatcher reaches only those implementations; both factories switch at 128; frames are masked with a fresh random key iff the role policy says so, prepared messages iff client, and the receiver unmasks with the frame's own key. Assumes the compiled extension is built from the analysed C file.",
+         "3 C15"),
  "C16": ("guard-dominance rules on CFG/must-facts (limit test extension, gate flag ordering, must-pass-through of the send-side test), API-pairing rule for bounded decompress",
          "Decides on all paths: the receive-side limit test is `0 < limit < size` (strict, 0 disables) on the running total, sits at frame begin before any payload octet is processed, fails with 1009; every buffer append / delivery is gated by `not failedByMe`; the send-side test dominates every frame write and compares the post-compression length; a bounded decompress() must inspect unconsumed_tail (one known finding: permessage-deflate truncates). Does not decide run-time interaction with fragment spreading.",
          "3 C16"),
